@@ -1790,13 +1790,19 @@ feature! {
         }
 
         fn register_callsite(&self, metadata: &'static Metadata<'static>) -> Interest {
-            // Return highest level of interest.
-            let mut interest = Interest::never();
-            for s in self {
+            // `enabled` requires *all* subscribers to enable the callsite, so
+            // the combined interest is the lowest one: `never` if any
+            // subscriber will never enable it, otherwise `sometimes` if any
+            // has to be asked, otherwise `always`. (Subscribers with
+            // per-subscriber filters always return `always` here.)
+            let mut subscribers = self.iter();
+            let mut interest = match subscribers.next() {
+                Some(s) => s.register_callsite(metadata),
+                None => return Interest::never(),
+            };
+            for s in subscribers {
                 let new_interest = s.register_callsite(metadata);
-                if (interest.is_sometimes() && new_interest.is_always())
-                    || (interest.is_never() && !new_interest.is_never())
-                {
+                if new_interest.is_never() || (new_interest.is_sometimes() && interest.is_always()) {
                     interest = new_interest;
                 }
             }
